@@ -217,7 +217,8 @@ def run_eval(fam, case_lines, timeout=1800, workers=12):
     chunks = [case_lines[i:i + size] for i in range(0, n, size)]
     from concurrent.futures import ThreadPoolExecutor
     with ThreadPoolExecutor(max_workers=len(chunks)) as ex:
-        results = list(ex.map(_run_eval_chunk, [(binp, c, timeout) for c in chunks]))
+        # thorough tiers hand tens of thousands of lines to one process: the limit grows with the chunk
+        results = list(ex.map(_run_eval_chunk, [(binp, c, timeout + len(c)) for c in chunks]))
     out = []
     for r, err in results:
         if r is None:
